@@ -281,6 +281,8 @@ def judge(shape, req, reply, eff):
         elif kind in ("getattr", "setattr") and any(isinstance(n, str) and spec_private(n) for n in names):
             out.append(("attribute-request-private-name",
                         "%s request served the private name %r (effect %d)" % (kind, names, fid)))
+        elif any(isinstance(n, str) and spec_private(n) and resolve(shape, n) for n in names):
+            out.append(("private-name-served:" + kind, "%s request %r ran code stored under a private name (effect %d)" % (kind, names, fid)))
         else:
             out.append(("unexposed-code-ran:" + kind, "%s request %r ran code that is not exposed (effect %d)" % (kind, names, fid)))
         break
@@ -751,7 +753,30 @@ def _apply_coarse(line, flags):
     return " | ".join(parts)
 
 
-def _run(ctx, name, nshapes, do_model):
+def _search_variants(shape):
+    """search mode: shapes on which model and code disagreed, with exposure turned up (every class exposed; every
+    function with a public __name__ exposed) so that a gate that lets too much through shows it on the real code"""
+    a = copy.deepcopy(shape)
+    for c in a["classes"]:
+        c["expose"] = True
+    b = copy.deepcopy(a)
+    for c in b["classes"]:
+        for _, m in c["members"]:
+            for f in member_fns(m):
+                if not spec_private(f["name"]):
+                    f["expose"] = True
+    c = copy.deepcopy(shape)
+    for cl in c["classes"]:
+        cl["expose"] = False
+        for _, m in cl["members"]:
+            for f in member_fns(m):
+                f["expose"] = False
+            if m["k"] == "prop":
+                m["expose"] = False
+    return [a, b, c]
+
+
+def _run(ctx, name, nshapes, do_model, extra_shapes=()):
     from props import c02_real
     real = c02_real.Real()
     try:
@@ -765,6 +790,9 @@ def _run(ctx, name, nshapes, do_model):
             for c in _load_corpus():
                 keys = sorted(_shape_keys(c["shape"]))
                 cases.append((c["shape"], c["reqs"], keys, "corpus/" + c["corpus"]))
+        for i, shape in enumerate(extra_shapes):
+            keys, reqs = gen_requests(rng, shape, reserved, False)
+            cases.append((shape, reqs, keys, "%s-seed#%d" % (name, i)))
         for i in range(nshapes):
             shape = gen.shape()
             keys, reqs = gen_requests(rng, shape, reserved, thorough and i % 20 == 0)
@@ -806,7 +834,14 @@ def correspondence(ctx):
 def oracle(ctx):
     # step D runs inside _run on the same cases; in search mode it runs again on fresh shapes
     if ctx.search_mode:
-        _run(ctx, "search", ctx.n(150, 2000), False)
+        seeds, seen = [], set()
+        for m in ctx.mismatches[:60]:
+            sh = (m.get("case") or {}).get("shape")
+            key = json.dumps(sh, sort_keys=True)
+            if sh and key not in seen:
+                seen.add(key)
+                seeds += _search_variants(sh)
+        _run(ctx, "search", ctx.n(100, 1000), False, extra_shapes=seeds[:90])
 
 
 def replay(ctx, case):
